@@ -6,7 +6,7 @@ import copy
 
 from ..cfg import iter_own
 from ..effects import access_path
-from ..loader import AnalysisError, FuncInfo, dotted, walk_own
+from ..loader import exc_expr, AnalysisError, FuncInfo, dotted, walk_own
 from . import c03
 from .common import Anchors, call_name, def_use_closure, find_assign_sources, is_const, names_in, self_attr
 from .tables import enclosing_loops, expand_alias, loop_var_source, norm, store_key, store_value, table_mutations
@@ -295,6 +295,75 @@ def inherited_content(ctx, an: Anchors, table: str) -> list:
     return out
 
 
+def _unfiltered_copy_guarded(ctx, an: Anchors, h: FuncInfo, node, rule: str) -> bool:
+    """An unfiltered copy of the parent's table is fine where it is only reached when a
+    "this context holds generated resources" flag of the parent is false - provided that
+    flag really over-approximates: it starts False, is only ever set to True, and every store
+    of a generated container is dominated by setting it."""
+    from .discharge import controlling_conditions
+    from .tables import store_value, table_mutations
+
+    a = ctx.a
+    rep = ctx.rep
+    cfg = a.cfg(h)
+    nodes = [n for n in cfg.live_nodes() if n.kind == "stmt" and (n.ast is node or (isinstance(n.ast, ast.AST) and any(x is node for x in ast.walk(n.ast))))]
+    if not nodes:
+        return False
+    flags = [e.attr for e, truth, _t in controlling_conditions(cfg, nodes[0]) if isinstance(e, ast.Attribute) and truth is False and e.attr != an.generated_flag]
+    for F in flags:
+        ok = True
+        sets = 0
+        why = ""
+        for f in ctx.p.all_functions():
+            for x in walk_own(f.node):
+                tg = []
+                if isinstance(x, ast.Assign):
+                    tg = [(t, x.value) for t in x.targets]
+                elif isinstance(x, (ast.AnnAssign, ast.AugAssign)) and getattr(x, "value", None) is not None:
+                    tg = [(x.target, x.value)]
+                for t, v in tg:
+                    if isinstance(t, ast.Attribute) and t.attr == F:
+                        in_init = f in an.init_closure
+                        if isinstance(x, ast.AugAssign) or not isinstance(v, ast.Constant) or v.value not in (True, False) or (v.value is False and not in_init):
+                            ok, why = False, f"`{ast.unparse(x)}` in {f.qualname} can clear the flag"
+                        sets += 1
+        if not sets:
+            continue
+        # every store of a possibly generated container sets the flag first
+        gen_field = an.generated_flag
+        fields = an.dataclass_fields(an.container_class)
+        for f, n, m, recv in table_mutations(a, an.resource_table):
+            if m.kind == "rebind" or f in an.init_closure:
+                continue
+            val = store_value(m)
+            ctor = None
+            if isinstance(val, ast.Name):
+                srcs = find_assign_sources(f, val.id)
+                ctor = srcs[0] if len(srcs) == 1 else None
+            elif isinstance(val, ast.Call):
+                ctor = val
+            generated = None
+            if isinstance(ctor, ast.Call) and a.callee(f, ctor).kind == "class" and a.callee(f, ctor).cls is an.container_class:
+                generated = False
+                idx = fields.index(gen_field) if gen_field in fields else None
+                if idx is not None and len(ctor.args) > idx:
+                    generated = None if not isinstance(ctor.args[idx], ast.Constant) else bool(ctor.args[idx].value)
+                for kw in ctor.keywords:
+                    if kw.arg == gen_field:
+                        generated = None if not isinstance(kw.value, ast.Constant) else bool(kw.value.value)
+            if generated is False:
+                continue
+            fcfg = a.cfg(f)
+            setters = [x.id for x in fcfg.live_nodes() if x.kind == "stmt" and isinstance(x.ast, ast.Assign) and any(isinstance(t, ast.Attribute) and t.attr == F and isinstance(t.value, ast.Name) and t.value.id == "self" for t in x.ast.targets) and isinstance(x.ast.value, ast.Constant) and x.ast.value.value is True]
+            if recv != ("self",) or not setters or not fcfg.all_paths_pass(fcfg.entry, [n.id], setters):
+                ok, why = False, f"a (possibly) generated container is stored in {f.qualname} without `self.{F} = True` before it"
+        if ok:
+            rep.hold(rule, h, node, f"unfiltered copy only while the parent's `{F}` is false; `{F}` starts False, is only ever set to True, and is set before every store of a generated container")
+            return True
+        rep.note(f"{rule}: flag `{F}` does not justify the unfiltered copy: {why}")
+    return False
+
+
 def rule_r2(ctx, an: Anchors, rule: str = "C04.R2") -> None:
     from .discharge import implied_within
 
@@ -312,6 +381,8 @@ def rule_r2(ctx, an: Anchors, rule: str = "C04.R2") -> None:
         inheriting += 1
         if kind == "comp":
             rep.check(rule, any(flag_filter_ok(c, flag) for c in detail), h, node, f"child copies only resources whose {flag} is false", f"child copies the parent's resources without filtering out {flag} ones: generated resources are inherited")
+        elif kind == "copy_all" and _unfiltered_copy_guarded(ctx, an, h, node, rule):
+            continue
         elif kind in ("copy_all", "alias"):
             rep.violate(rule, h, node, f"child resource table is bound to `{norm(node) if not isinstance(detail, ast.AST) else norm(detail)}`: generated resources of the parent are inherited (no filter on {flag})")
         elif kind == "loop_store":
@@ -349,7 +420,7 @@ def rule_r3(ctx, an: Anchors, gs: GenBranch) -> None:
     true_succ = [d for d, lab in t.succ if lab == "t"]
     region = cfg.reach(true_succ, avoid=[t.id])
     raises = [cfg.nodes[i] for i in region if cfg.nodes[i].kind == "stmt" and isinstance(cfg.nodes[i].ast, ast.Raise)]
-    ok_raise = any("AsyncResourceError" in ast.unparse(r.ast.exc) for r in raises if r.ast.exc is not None)
+    ok_raise = any("AsyncResourceError" in ast.unparse(exc_expr(r.ast)) for r in raises if r.ast.exc is not None)
     rep.check("C04.R3", ok_raise, f, t.ast, "coroutine branch raises AsyncResourceError", "coroutine branch does not raise AsyncResourceError")
     reaches_store = any(s in region for s in store_ids)
     rep.check("C04.R3", not reaches_store, f, t.ast, "coroutine branch never reaches the store", "the coroutine branch can still store the coroutine object")
